@@ -98,17 +98,19 @@ CHECKS.update({
                           "variational theorem on the real optimiser over bounded inputs (bounded stand-in for the eigensolver / convergence clauses)",
                 note=OTHER_NOTE),
     "C09": dict(cat="other", ref="DESIGN §8 C09, S.2",
-                text="Engine S (kernel-stub mode): the real _evolve_prop_and_compress (Taylor orders 1..7), _tdrk4 and _tdrk (all eight single-row tableaux) run on symbolic states with "
+                text="Call by contract at the local propagator: with expm_krylov / solve_ivp replaced by recording stubs that return arbitrary vectors, the real _evolve_tdvp_ps and _evolve_tdvp_ps2 pose exactly the local problems of the projector-splitting integrator - schedule, generator x time = -+i dt/2 J^H H J against an independent frame contraction, start vector, continuity - exact polynomial identities for all states and all kernel results of the enumerated shapes, Krylov and ODE form, replayed natively with the real kernels. "
+                     "Engine S (kernel-stub mode): the real _evolve_prop_and_compress (Taylor orders 1..7), _tdrk4 and _tdrk (all eight single-row tableaux) run on symbolic states with "
                      "lossless compressions; the dense result equals sum_k d_k (-i dt H)^k psi with d_k computed from the tableau in rational arithmetic (C19 certifies d_k = 1/k! "
                      "up to the order), and for H(t) the exact explicit Runge-Kutta recursion with absolute stage times - for all states of the enumerated shapes, states with the "
                      "centre moved, density operators, real and imaginary time. Theorem-derived error bounds per scheme (Taylor / stage-polynomial remainder with the coefficients certified in C19, exactness of PS/PS2/VMF at "
                      "full bond dimension, order of CMF) against scipy expm; solver-, split- and adaptivity-independence; norm/energy conservation of TDVP-PS at any "
                      "bond dimension; bond limits; density-operator form; time-dependent H; histories of scheme switches. Bounded; nothing proved.",
-                technique="exact symbolic execution of the real propagation-and-compression schemes (stage-polynomial identity, all tensor values); runtime contracts with "
-                          "theorem-derived bounds on every scheme (bounded stand-in for the floating-point / TDVP clauses)",
+                technique="exact symbolic execution of the real propagation-and-compression schemes (stage-polynomial identity) and of the TDVP-PS/PS2 sweeps with the local propagator under contract (all tensor values); runtime contracts with "
+                          "theorem-derived bounds on every scheme (bounded stand-in for the floating-point clauses)",
                 note=OTHER_NOTE),
     "C10": dict(cat="other", ref="DESIGN §8 C10, S.2",
-                text="Engine S (kernel-stub mode): for imaginary time steps the un-normalised result of every propagation-and-compression scheme equals the stage polynomial in "
+                text="The imaginary-time branch of TDVP-PS / PS2 poses exactly the local problems of the projector-splitting integrator for exp(-tau H) (call by contract at expm_krylov / solve_ivp, Engine S, both local solver forms). "
+                     "Engine S (kernel-stub mode): for imaginary time steps the un-normalised result of every propagation-and-compression scheme equals the stage polynomial in "
                      "(-tau H) applied to the state or density operator, exactly, for all tensor values of the enumerated shapes (the normalisation and the TDVP schemes are bounded). "
                      "Imaginary-time branch of every scheme vs normalised expm(-tau H)psi, exact local propagator incl. shift / phase / frame bookkeeping, purified "
                      "identity states, thermal propagation vs dense Gibbs averages in the sector over two decades of beta. Bounded.",
@@ -165,7 +167,8 @@ CHECKS.update({
                 technique="runtime contracts against an independent tree contraction over enumerated tree shapes (bounded stand-in)",
                 note=OTHER_NOTE + " print_tree shim is part of the trusted base."),
     "C12": dict(cat="other", ref="DESIGN §8 C12, S.2",
-                text="Engine S (kernel-stub mode): TTNS.update_2site (two-site projector splitting) on every bond incl. the per-node limit probe; evolve_prop_and_compress_tdrk4 on symbolic tree states of every rooted ordered tree shape (2..4(5) nodes) equals "
+                text="Call by contract at the local propagator on every rooted ordered tree shape: the real evolve_tdvp_ps / evolve_tdvp_ps2 pose exactly the one-site / zero-site (two-site / one-site) problems of the tree projector-splitting integrator with generator x time = +-coeff tau/2 J^H H J (independent frame contraction), in the integrator's order, each posed in the state the previous one produced - exact for all tensor values and kernel results. "
+                     "Engine S (kernel-stub mode): TTNS.update_2site (two-site projector splitting) on every bond incl. the per-node limit probe; evolve_prop_and_compress_tdrk4 on symbolic tree states of every rooted ordered tree shape (2..4(5) nodes) equals "
                      "sum_{k<=4} (coeff tau H)^k / k! psi exactly, real and imaginary time; the velocity returned by time_derivative_vmf is checked (bounded) to be the orthogonal "
                      "projection of H psi on the tangent space for truncated manifolds and any norm. Theorem-derived bounds for the four tree evolution schemes in real and imaginary time vs scipy expm, sector conservation, input frame, multi-step histories, "
                      "norm/energy conservation of one-site PS at bond limits 1-2, linear tree vs chain implementation, purified P x Q trees vs the dense Gibbs state. Bounded.",
